@@ -404,7 +404,7 @@ func extraC05(col *Collector, r *RNG, tier string) {
 		switch i % 10 {
 		case 0: // the attempt fails before a dump exists
 			opts = defaultOpts()
-			opts.refuse = r.Pickstr("close-on-accept", "handshake-err", "query-err", "close-on-query", "rst-after-query", "dump-too-large", "dump-too-large")
+			opts.refuse = []string{"cancel-on-query", "close-on-accept", "handshake-err", "query-err", "close-on-query", "rst-after-query", "dump-too-large"}[(i/10)%7]
 			if opts.refuse == "dump-too-large" {
 				// connection and checksum query succeed, then the COM_BINLOG_DUMP packet cannot be written: the file
 				// name makes it larger than the connection's max_allowed_packet (no reader goroutine was started)
